@@ -29,6 +29,11 @@ Has(k) == data[k] # 0
 RECURSIVE Join(_, _)
 Join(s, i) == IF i > Len(s) THEN ""
               ELSE (IF i > 1 THEN "," ELSE "") \o s[i] \o "=" \o ToString(data[s[i]]) \o Join(s, i + 1)
+RECURSIVE JoinRev(_, _)
+JoinRev(s, i) == IF i < 1 THEN ""
+                 ELSE s[i] \o "=" \o ToString(data[s[i]]) \o (IF i > 1 THEN "," ELSE "") \o JoinRev(s, i - 1)
+FirstGE(s, min) == LET idx == {i \in 1..Len(s) : data[s[i]] >= min} IN
+                   IF idx = {} THEN "none" ELSE s[CHOOSE i \in idx : \A j \in idx : i <= j]
 RECURSIVE JoinKeys(_, _)
 JoinKeys(s, i) == IF i > Len(s) THEN "" ELSE (IF i > 1 THEN "," ELSE "") \o s[i] \o JoinKeys(s, i + 1)
 
@@ -42,6 +47,9 @@ Effect(p) ==
     [] p.op = "Len" ->      [o |-> order, d |-> data, r |-> ToString(Cardinality({k \in Keys : Has(k)}))]
     [] p.op = "Each" ->     [o |-> order, d |-> data, r |-> Join(order, 1)]
     [] p.op = "JSON" ->     [o |-> order, d |-> data, r |-> JoinKeys(order, 1)]
+    [] p.op = "EachReverse" -> [o |-> order, d |-> data, r |-> JoinRev(order, Len(order))]
+    [] p.op = "Map" ->      [o |-> order, d |-> [k \in Keys |-> IF Has(k) THEN data[k] + 1 ELSE 0], r |-> "ok"]
+    [] p.op = "Find" ->     [o |-> order, d |-> data, r |-> FirstGE(order, p.v)]
 
 Inv == /\ l <= Len(Trace) /\ Trace[l].e = "inv" /\ pend[Trace[l].t] = NoOp
        /\ pend' = [pend EXCEPT ![Trace[l].t] = [op |-> Trace[l].op, k |-> Trace[l].k, v |-> Trace[l].v, lin |-> FALSE, res |-> ""]]
